@@ -64,6 +64,36 @@ Proof.
            jfloat_tag_loader bool_tag_loader null_tag_loader Hi Hy Hj yl).
 Qed.
 
+(* per-leaf stability is proved for the container grammar: no premise about the leaves left *)
+Lemma dump_parse_roundtrip_simple :
+  forall (yl : str -> option val) (plain_ok : str -> bool) (yrepr jrepr : fl -> str),
+    int_text_ok -> yfloat_text_ok yrepr -> jfloat_text_ok jrepr ->
+    forall vr lvs,
+      case_class yl vr lvs = 0%N ->
+      forallb leaf_simple lvs = true ->
+      exists ws, roundtrip yl plain_ok yrepr jrepr dumper_table loader_table vr lvs = Some ws /\
+                 Forall2 (fun w' w => veq w' w = true) ws (map snd lvs).
+Proof.
+  intros yl plain_ok yrepr jrepr Hi Hy Hj.
+  exact (roundtrip_simple_ok plain_ok yrepr jrepr dumper_table loader_table str_agree_tables int_tag_loader yfloat_tag_loader
+           jfloat_tag_loader bool_tag_loader null_tag_loader Hi Hy Hj yl).
+Qed.
+
+(* parsers with subcommands: the dump is taken by the top-level parser (req_sub: it has a REQUIRED subcommand) *)
+Lemma dump_parse_roundtrip_top :
+  forall (yl : str -> option val) (plain_ok : str -> bool) (yrepr jrepr : fl -> str),
+    int_text_ok -> yfloat_text_ok yrepr -> jfloat_text_ok jrepr ->
+    forall req_sub sub vr lvs,
+      top_class yl req_sub sub vr lvs = 0%N ->
+      Forall (fun lw => leaf_stable yl (vr_skip_none vr) (fst lw) (snd lw)) lvs ->
+      exists ws, roundtrip_top yl plain_ok yrepr jrepr dumper_table loader_table req_sub sub vr lvs = Some ws /\
+                 Forall2 (fun w' w => veq w' w = true) ws (map snd lvs).
+Proof.
+  intros yl plain_ok yrepr jrepr Hi Hy Hj.
+  exact (roundtrip_top_ok plain_ok yrepr jrepr dumper_table loader_table str_agree_tables int_tag_loader yfloat_tag_loader
+           jfloat_tag_loader bool_tag_loader null_tag_loader Hi Hy Hj yl).
+Qed.
+
 (* ---- witnesses: the full statement fails outside the guard (faithful model of the pinned tree) ------------------ *)
 Definition id_yl (s : str) : option val := Some (VStr s).
 Definition no_plain (s : str) : bool := false.
@@ -169,3 +199,37 @@ Proof.
     (right; eexists; (split; [vm_compute; reflexivity|]); eexists; (split; [vm_compute; reflexivity|]);
      vm_compute; reflexivity).
 Qed.
+
+(* the container grammar: a parser whose five leaves are all in it (str look-alike, Optional[int], List[str],
+   Dict[str, Tuple[int, float]], Tuple[Optional[bool], ...]) — the hypotheses of dump_parse_roundtrip_simple hold *)
+Definition simple_leaves : list (leaf * val) :=
+  [({| lf_key := [115]%N; lf_ty := CStr; lf_def := VStr ka |}, VStr [49;101;51]%N);
+   ({| lf_key := [110]%N; lf_ty := CUnion [CInt; CNone]; lf_def := VInt 7 |}, VInt 7);
+   ({| lf_key := [108]%N; lf_ty := CList CStr; lf_def := VNone |}, VList [VStr [110;117;108;108]%N; VStr [97;58;32;98]%N]);
+   ({| lf_key := [100]%N; lf_ty := CDict false (CTuple [CInt; CFloat]); lf_def := VNone |},
+    VDict [(VStr ka, VTuple [VInt 1; VFloat (FFin 1 0)])]);
+   ({| lf_key := [116]%N; lf_ty := CTupleVar (CUnion [CBool; CNone]); lf_def := VNone |}, VTuple [VBool true; VNone]);
+   ({| lf_key := [111]%N; lf_ty := CUnion [CList CInt; CNone]; lf_def := VList [VInt 1] |}, VNone)].
+
+Lemma roundtrip_simple_hyps_example :
+  case_class id_yl yaml_keep simple_leaves = 0%N /\ forallb leaf_simple simple_leaves = true /\
+  roundtrip id_yl no_plain some_text some_text dumper_table loader_table yaml_keep simple_leaves = Some (map snd simple_leaves).
+Proof. vm_compute. auto. Qed.
+
+(* dump(skip_default=True) by a parser with a required subcommand raises: there is no text to parse back *)
+Lemma skip_default_subcommand_witness :
+  top_class id_yl true None yaml_skipdef ex_leaves = 13%N /\
+  roundtrip_top id_yl no_plain some_text some_text dumper_table loader_table true None yaml_skipdef ex_leaves = None /\
+  top_class id_yl false None yaml_skipdef ex_leaves = 0%N.
+Proof. vm_compute. auto. Qed.
+
+(* save() (skip_none) of `fit` whose only option x: Optional[int] = None holds None: the text is `fit: {}` and the re-parse
+   does not select the subcommand *)
+Definition fit_pre : str := [102;105;116;46]%N.
+Definition fit_leaves : list (leaf * val) :=
+  [({| lf_key := fit_pre ++ kx; lf_ty := CUnion [CInt; CNone]; lf_def := VNone |}, VNone)].
+Lemma empty_subcommand_witness :
+  top_class id_yl true (Some fit_pre) save_default fit_leaves = 14%N /\
+  roundtrip_top id_yl no_plain some_text some_text dumper_table loader_table true (Some fit_pre) save_default fit_leaves = None /\
+  top_class id_yl true (Some fit_pre) yaml_keep fit_leaves = 0%N.
+Proof. vm_compute. auto. Qed.
